@@ -112,6 +112,20 @@ void h_c03_double_text(void)
     if (first_index(log, n, 4) >= 0) __CPROVER_assert(0, "reach:text-with-point-or-exponent");
     REACH;
 }
+/* K4: forall / exists / sum (i : T) body: the binder's name, its type in DECLARATION syntax (event 51; the diagnostic format of
+   type_t::str(), event 50, is not something the parser reads), then the body */
+void w03b_print_quantifier(int kind, int* log, int* nlog);
+void h_c03_quantifier_binder(void)
+{
+    int kind, log[NLOG], n;
+    __CPROVER_assume(kind == K_FORALL || kind == K_EXISTS || kind == K_SUM);
+    w03b_print_quantifier(kind, log, &n);
+    __CPROVER_assert(count_ev(log, n, 50) == 0 && count_ev(log, n, 51) == 1, "c03.quantifier.the-binder's-type-is-written-in-the-syntax-the-parser-reads-(declaration-syntax),-not-in-the-diagnostic-format");
+    /* (the name is an identity streamed as an int; cbmc's C++ front end also types the character literal ':' as int) */
+    __CPROVER_assert(count_ev(log, n, 3) >= 1 && first_index(log, n, 3) < first_index(log, n, 51), "c03.quantifier.the-binder's-name-comes-before-its-type");
+    __CPROVER_assert(count_ev(log, n, 10 + 3) == 1 && first_index(log, n, 10 + 3) > first_index(log, n, 51), "c03.quantifier.the-body-is-printed-after-the-binder");
+    REACH;
+}
 static void query(int which)
 {
     int bt, runs, box, le, agg, ut, log[NLOG], n; double prob;
